@@ -50,6 +50,10 @@ ASSUMPTIONS = [
     "on a same-shape proof is a failure",
     "part B: Vortex claimed values come from a math/big reference (Lagrange evaluation over E4); the FRI reference prover (math/big + "
     "sha256 + the library's Fiat-Shamir transcript) must reproduce the library's proof byte for byte before its cheating modes are used; "
+    "challenge-binding forgeries recompute the hypothesised (defective) challenge from the documented sha256 transcript layout with one bound "
+    "message left out (also: only the first / only the last / nothing bound); FRI challenges x_i, i>=1, have no adaptive forgery with a "
+    "deterministic verdict and are covered by the transcript-conformance fallback only; Vortex derives no challenge (alpha, x, columns are inputs); "
+    "the KZG folding challenge gamma inside kzg.BatchVerifySinglePoint belongs to the kzg checks; "
     "KZG SRS with a fixed public trapdoor; SIS keys (logDegree, logBound) in {(4,8),(5,8),(6,16),(9,16)}",
 ]
 
@@ -76,4 +80,14 @@ MANDATORY = [
     "fri_opening|ClaimedValue:felt|plus1",                                      # F16
     "F17_forgery", "far_function",                                              # F17, far function
     "fri_proximity|wrong_fold_committed_at_step", "fri_proximity|wrong_final_evaluation(consistent_queries)",
+)] + [
+    # challenge binding (adaptive prover per challenge and bound message), every class at least once per run
+    "binding|permutation|epsilon!<-t1", "binding|permutation|epsilon!<-t2", "binding|permutation|omega!<-z", "binding|permutation|eta!<-q",
+    "binding|plookup_vector|beta!<-t", "binding|plookup_vector|beta!<-f", "binding|plookup_vector|beta!<-h1", "binding|plookup_vector|beta!<-h2",
+    "binding|plookup_vector|alpha!<-z", "binding|plookup_vector|nu!<-h",
+    "binding|plookup_tables|lambda!<-fs", "binding|plookup_tables|lambda!<-ts",
+    "binding|fri|x0!<-root0", "binding|fri|s0!<-evaluation",
+] + [lab + "@" + c for c in PAIRING for lab in (
+    "binding|permutation|epsilon!<-t1", "binding|permutation|epsilon!<-t2", "binding|permutation|omega!<-z", "binding|permutation|eta!<-q",
+    "binding|plookup_vector", "binding|plookup_tables", "binding|fri|x0!<-root0", "binding|fri|s0!<-evaluation",
 )]
